@@ -667,6 +667,11 @@ func (m *Model) apply(o Op, hint *Res) Res {
 		if e := m.precondition(b, o.K, o); e != "" {
 			return Res{Err: e}
 		}
+		if mf := o.Get("manifest"); mf != "" && mf != "ok" && hint != nil && hint.Err != "" {
+			// a manifest that does not describe the uploaded parts is rejected; which error is
+			// reported is the implementation's choice
+			return Res{Err: hint.Err}
+		}
 		nums := make([]int, 0, len(u.Parts))
 		for n := range u.Parts {
 			nums = append(nums, n)
